@@ -9,4 +9,5 @@ cargo +nightly --version >/dev/null          # MIR dumps (C04)
 python3-vt -c "import z3; print('z3', z3.get_version_string())"
 command -v cvc5 >/dev/null                   # thorough tier cross-check (C04)
 command -v rsync >/dev/null
+python3-vt -c "import crosshair" # C25 (python side)
 echo setup ok
